@@ -221,7 +221,11 @@ class VLoop(asyncio.SelectorEventLoop):
         protocol = protocol_factory()
         ep = VUdp(self.net, self, protocol, port)
         self.net.udp[port] = ep
-        await asyncio.sleep(0)
+        try:
+            await asyncio.sleep(0)
+        except BaseException:
+            ep.close()          # as asyncio does when the wait for connection_made is cancelled
+            raise
         protocol.connection_made(ep)
         return ep, protocol
 
